@@ -361,14 +361,21 @@ func genPlan(maxSteps int) func(rt *rapid.T) Plan {
 				}
 			case w < 95:
 				st = Step{K: kFrame, Var: "unknown_type", F: intn(rt, "ft", 0x0a, 0xff), V: int64(intn(rt, "fl", 0, 255)), M: pick(rt, "fm", mConn, mLive, mIdle), S: intn(rt, "s", 0, 30), B: rapid.SliceOfN(rapid.Byte(), 0, 30).Draw(rt, "fb")}
+				if st.F == 0x10 { // PRIORITY_UPDATE (RFC 9218) is known to the framer: off stream 0 / short payload = connection error
+					if fatalOK {
+						st.Var, st.Fatal = "priority_update", true
+					} else {
+						st.F = 0x11
+					}
+				}
 				switch uni(rt, "fk", 6) {
 				case 0:
-					st.Var, st.F, st.V, st.B = "priority", ftPriority, 0, []byte{0, 0, 0, 0, 3}
+					st.Var, st.F, st.V, st.B, st.Fatal = "priority", ftPriority, 0, []byte{0, 0, 0, 0, 3}, false
 					if st.M == mConn {
 						st.M = mIdle
 					}
 				case 1:
-					st.Var, st.F, st.V, st.M = "goaway", ftGoAway, 0, mConn
+					st.Var, st.F, st.V, st.M, st.Fatal = "goaway", ftGoAway, 0, mConn, false
 					st.B = []byte{0, 0, 0, byte(intn(rt, "gl", 0, 9)), 0, 0, 0, byte(intn(rt, "gc", 0, 13))}
 				case 2:
 					if fatalOK {
